@@ -592,6 +592,24 @@ where
         let e = Self::de_eps_pub(p.slice());
         out.push(json!({"ev": "eps", "st": e["st"], "val": e.get("val").cloned().unwrap_or(json!([])),
                         "borrows": e.get("borrows").cloned().unwrap_or(json!([]))}));
+        // the full-copy reader observed call by call: check_header + _deserialize_full_inner on a recording
+        // ReadWithPos that delegates to the real ReaderWithPos
+        out.push(json!({"ev": "rinit", "t": T::desc(), "v": v, "bytes": bytes}));
+        let mut rd = DirectReader { data: bytes.clone(), ..Default::default() };
+        let r = catch_unwind(AssertUnwindSafe(|| {
+            let mut w = RecR { inner: ReaderWithPos::new(&mut rd), ev: vec![] };
+            let r = deser::check_header::<T>(&mut w).and_then(|_| T::_deserialize_full_inner(&mut w));
+            let pos = w.inner.pos();
+            (r, pos, w.ev)
+        }));
+        match r {
+            Ok((r, pos, evs)) => {
+                out.extend(evs);
+                let f = full_outcome(Ok((r, pos)));
+                out.push(json!({"ev": "rret", "st": f["st"], "val": f.get("val").cloned().unwrap_or(json!([])), "rpos": pos}));
+            }
+            Err(p) => out.push(json!({"ev": "rret", "st": "panic", "val": [], "rpos": 0, "msg": panic_msg(p)})),
+        }
     }
 }
 
